@@ -38,3 +38,15 @@ def full_profile(pid=None, **kw):
     args["excluded"] = EXCL[pid] if pid in EXCL else KNOWN_EXCLUSIONS
     args.update(kw)
     return S.Profile(**args)
+
+
+def region_profile(pid, **kw):
+    """Pre-emptive schedules together with blocking (finite capacities), heavy load, tie-rich grid times: the region in which several
+    cooperating code paths (interrupt a blocked customer, restart it, release it while interrupted) are exercised."""
+    w = {"schedule": 1.0, "sched_preempt": 1.0, "capacity": 1.0, "priorities": 0.3, "self_loops": 0.4, "routing_objects": 0.2, "batching": 0.2,
+         "discipline": 0.2, "server_priority": 0.1, "cc_waiting": 0.1, "tracker": 0.0}
+    args = dict(weights=w, required=("schedule", "capacity"), numeric="grid", max_nodes=3, max_classes=2, plans=("max_time",), horizon=(8.0, 20.0),
+                budget=500, load="heavy", caps=(0, 1, 1, 2), resumptions=(1, 2), excluded=EXCL.get(pid, ()))
+    args.update(kw)
+    w.update(args.pop("more_weights", {}))
+    return S.Profile(list(w), **args)
